@@ -342,6 +342,36 @@ def resume_rule(ctx, crate):
         # and the signalled group is the job's gid (field gid of the looked-up job)
         gid_ok = all(any(flow.is_field_named(s, "gid") for s in mir.subexprs(b.expand_vars(strip_sites(b.call_args(k)[0]))))
                      for k in kills) if kills else False
+        # ... and not only on the way to the target: once the job has been found, no path leaves the builtin
+        # without the signal (an `already running` shortcut in front of it trusts a status that can be stale)
+        found_edges = []
+        for bb in sorted(b.reachable):
+            for tgt, atom, val in b.switch_edges(bb):
+                if val == "Some" and atom[0] == "discr":
+                    if flow.backward(b, atom[1], lambda z: z[0] == "call" and last_seg(z[1]).startswith("get_job"),
+                                     through_containers=False) is not None:
+                        found_edges.append(tgt)
+        rets = {bb for bb in b.reachable if b.term(bb)["k"] == "return"}
+        if found_edges and kills:
+            # blocks reachable from `job found` without passing the signal; a branch on the job's recorded status in
+            # there decides whether the signal is sent at all (a failing system call may still leave early)
+            reach, todo = set(), list(found_edges)
+            while todo:
+                x = todo.pop()
+                if x in reach or x in kills:
+                    continue
+                reach.add(x)
+                todo.extend(b.succs[x])
+            status_branch = False
+            for x in reach:
+                for tgt, atom, val in b.switch_edges(x):
+                    if any(flow.is_field_named(sub, "status") for sub in mir.subexprs(b.expand_vars(strip_sites(atom)))):
+                        status_branch = True
+            always = not (status_branch and any(r in reach for r in rets))
+            ctx.ob("R07-6", fn_, "once the job is found, every path out of %s passes killpg(.., SIGCONT)" % last_seg(fn_.rsplit("::", 1)[0]),
+                   always, key="R07-6|%s|sigcont-before-any-return" % fn_, where=b.loc(found_edges[0]), crate=crate.kind,
+                   detail=None if always else "a return is reachable before the signal (an early `already in background` / "
+                   "status test): a member stopped from outside while the table still says Running is never continued")
         ctx.ob("R07-6", fn_, "killpg(job.gid, SIGCONT) on every path to %s" % target, ok and gid_ok,
                key="R07-6|%s|sigcont" % fn_, where=b.loc(tg[0]), crate=crate.kind,
                detail=None if ok else "a member stopped from outside stays stopped while its job is (fore)ground: the recorded "
